@@ -172,7 +172,7 @@ CONF["C18"] = {
     "level_note": "Trusted: harness/fitmodel/expand.go (component rules, message and event numbers of the FIT profile). Chained expansion compressed_speed_distance -> speed -> enhanced_speed is not asserted; a compressed_speed_distance that is not 3 bytes long and radar threat events are not decided. Open findings D10 (got must be exactly 0), D11 and K1 (got must equal an emulation of the 8-bit truncation and of the process-wide accumulator over this process's decode history) are excluded only when they match exactly.",
     "quick": {"checks": 2500, "timeout": 300, "shrinktime": "10s"},
     "thorough": {"checks": 80000, "timeout": 1800, "shards": 8, "shrinktime": "30s"},
-    "rule": "a quarter of the streams declare fields with narrower compatible base types. histories: 1..4 generated streams (file types activity, course, activity summary, segment; messages with components only; component sources/destinations favoured; event kinds biased to sport_point / gear changes) decoded in sequence in one process, each compared with the per-file model; non-trivial = a source with a bit above the low byte (or a distance high nibble), a rollover of an accumulated source, and at least 2 files in the history; distinct by fingerprint of the streams. fresh-process: the test binary re-executes itself and decodes one activity file with 3-7 records carrying all three accumulated sources as its first library call.",
+    "rule": "presence: for every message with components in every file type that holds it, streams with all its sources on the wire and its destinations absent / all present with valid values / present except one, both byte orders, five event kinds (318 streams). a quarter of the streams declare fields with narrower compatible base types. histories: 1..4 generated streams (file types activity, course, activity summary, segment; messages with components only; component sources/destinations favoured; event kinds biased to sport_point / gear changes) decoded in sequence in one process, each compared with the per-file model; non-trivial = a source with a bit above the low byte (or a distance high nibble), a rollover of an accumulated source, and at least 2 files in the history; distinct by fingerprint of the streams. fresh-process: the test binary re-executes itself and decodes one activity file with 3-7 records carrying all three accumulated sources as its first library call.",
     "assumptions": ["component rules as summarised in the property text; FIT profile numbers session=18 lap=19 record=20 event=21 segment_lap=142, sport_point=33, front/rear gear change=42/43"],
 }
 
